@@ -362,6 +362,21 @@ def check_sum_images(case, cls):
         eq(G(box), ar[box], "sum-image")
         require(type(G(box)) is type(ar[box]) and len(G(box).terms) == 2,
                 "C04:sum-image", lambda: repr(G(box)))
+    # a box sent to the sum of no terms at all: its dagger goes to the empty
+    # sum the other way round, a composite ending in it has the right ends
+    zero = type(ar[a])([], G(a.dom), G(a.cod))
+    Z = m.Functor(ob, {a: zero, b: ar[b]})
+    for what, x in (("box", a), ("dagger", a[::-1]),
+                    ("composite", a >> a[::-1]), ("tensor", b @ a[::-1])):
+        image = Z(x)
+        require(specs.tkey(image.dom) == specs.tkey(Z(x.dom))
+                and specs.tkey(image.cod) == specs.tkey(Z(x.cod)),
+                "C04:dom-cod", lambda: "image of the {} of a box sent to the "
+                "empty sum: {} -> {}, expected {} -> {}".format(
+                    what, image.dom, image.cod, Z(x.dom), Z(x.cod)))
+        if what in ("box", "dagger", "composite"):
+            require(type(image) is type(zero) and not image.terms,
+                    "C04:sum-image", lambda: repr(image))
     eq(G(a @ b), ar[a] @ ar[b], "tensor-of-sum-images")
     eq(G(a @ b), G(a) @ G(b), "tensor-of-sum-images")
     eq(G(b @ a @ b), G(b) @ G(a) @ G(b), "tensor-of-sum-images")
